@@ -11,6 +11,7 @@ import time as realtime
 R = 10.0          # reconnect timeout in virtual seconds
 UNIT = 1.0 / 16   # one specification tick (exactly representable: no float trouble at the watchdog boundaries)
 RT = 160          # R in ticks
+EPOCH = 1700000000.0
 
 
 class World:
@@ -87,8 +88,13 @@ class FakeTime:
     def __init__(self, world, kind):
         self.w, self.kind = world, kind
 
+    # every clock the library might read is virtual; like the real ones, the wall clock and the monotonic clock are far apart
     def time(self):
+        return EPOCH + self.w.now
+
+    def monotonic(self):
         return self.w.now
+    perf_counter = monotonic
 
     def sleep(self, d):
         w = self.w
